@@ -64,10 +64,12 @@ define_macro('field(x,lo,w)', 'modp(divp(x, lo), w)')
 define_macro('setfield(x,lo,w,m)', 'x - shl(field(x,lo,w), lo) + shl(m, lo)')
 
 # slice bounds: every None/int combination, plus Bits-typed bounds (which reach the code through Bits.__bool__/__int__ and
-# behave as the int of their value) on both sides at once; mixed int/Bits combinations are exercised by the native sampler only.
+# behave as the int of their value) on both sides at once, on one side with None on the other, and mixed with an int on the other side
+# (a Bits bound together with a step is exercised by the native sampler only).
 Part=OneOf(NoneT(),IntT())
 StepT=OneOf(NoneT(),IntT())
-IdxT=OneOf(SliceT(Part,Part,StepT), SliceT(BitsT,BitsT,NoneT()), SliceT(NoneT(),BitsT,NoneT()), SliceT(BitsT,NoneT(),NoneT()), IntT(), BitsT)
+IdxT=OneOf(SliceT(Part,Part,StepT), SliceT(BitsT,BitsT,NoneT()), SliceT(NoneT(),BitsT,NoneT()), SliceT(BitsT,NoneT(),NoneT()),
+           SliceT(IntT(),BitsT,NoneT()), SliceT(BitsT,IntT(),NoneT()), IntT(), BitsT)
 PartS=OneOf(NoneT(),IntT(),BitsT)
 IdxSample=OneOf(SliceT(PartS,PartS,StepT), IntT(), BitsT)
 
